@@ -11,6 +11,8 @@ CONSTANTS
   Monitor = TRUE
   IdleMax = 2
   DevMonNoFeed = TRUE
+  Reactive = FALSE
+  DevNoSignalOnError = FALSE
   DevCloseWriterFallback = FALSE
   Emit = FALSE
   Classes = {1}
